@@ -14,10 +14,10 @@ open Group
 
 /-- the request's member is not a member of the current generation of the group the coordinator
 sees (`none` = no such group) -/
-def NotCurrent (ost : Option Group) (mid gen : Nat) : Prop :=
-  ∀ st, ost = some st → (lookup st.members mid).isNone = true ∨ gen ≠ st.gen
+def NotCurrent (ost : Option Group) (mid : Nat) (gen : Int) : Prop :=
+  ∀ st, ost = some st → (lookup st.members mid).isNone = true ∨ gen ≠ (st.gen : Int)
 
-theorem commitCheck_notCurrent {ost : Option Group} {mid gen : Nat} (h : NotCurrent ost mid gen) :
+theorem commitCheck_notCurrent {ost : Option Group} {mid : Nat} {gen : Int} (h : NotCurrent ost mid gen) :
     commitCheck ost mid gen = UNKNOWN_MEMBER_ID ∨ commitCheck ost mid gen = ILLEGAL_GENERATION := by
   unfold commitCheck
   cases ost with
@@ -33,7 +33,7 @@ theorem commitCheck_notCurrent {ost : Option Group} {mid gen : Nat} (h : NotCurr
 /-- **C13 (commit).** In every state, with every store-fault setting: an OffsetCommit whose member is
 unknown to the group or whose generation is not the group's is answered with an error code for
 every partition, and the committed offsets are unchanged. -/
-theorem _root_.KafVerif.C13.commit_fenced (v : Variant) (s s1 : State) (g mid gen : Nat) (parts : List (Nat × Int × Int × Nat))
+theorem _root_.KafVerif.C13.commit_fenced (v : Variant) (s s1 : State) (g mid : Nat) (gen : Int) (parts : List (Nat × Int × Int × Nat))
     (ost : Option Group) (hl : loadGroup v s g = some (s1, ost)) (hn : NotCurrent ost mid gen) :
     (commit v s g mid gen parts).1.offsets = s.offsets ∧
     ∃ code, (code = UNKNOWN_MEMBER_ID ∨ code = ILLEGAL_GENERATION) ∧
@@ -47,15 +47,26 @@ theorem _root_.KafVerif.C13.commit_fenced (v : Variant) (s s1 : State) (g mid ge
   simp only [hne, if_false]
   exact ⟨(loadGroup_frame hl).offsets, _, hc, rfl⟩
 
+/-- **C13 ("standalone" commits are fenced too).** An OffsetCommit with a negative generation (−1 = "no
+generation", what a caller outside group management sends, usually with an empty member id) never
+matches a group's generation: whatever the member id, whatever the group's phase and members, it is
+answered with an error and changes no committed offset. -/
+theorem _root_.KafVerif.C13.negative_generation_commit_fenced (v : Variant) (s s1 : State) (g mid : Nat) (gen : Int)
+    (parts : List (Nat × Int × Int × Nat)) (ost : Option Group) (hl : loadGroup v s g = some (s1, ost)) (hneg : gen < 0) :
+    (commit v s g mid gen parts).1.offsets = s.offsets ∧
+    ∃ code, (code = UNKNOWN_MEMBER_ID ∨ code = ILLEGAL_GENERATION) ∧
+      (commit v s g mid gen parts).2 = .commit (parts.map fun e => (e.1, e.2.1, code)) :=
+  KafVerif.C13.commit_fenced v s s1 g mid gen parts ost hl (fun st _ => Or.inr (by omega))
+
 /-- a request that cannot even load the group (store error) changes nothing either -/
-theorem commit_load_error (v : Variant) (s : State) (g mid gen : Nat) (parts : List (Nat × Int × Int × Nat))
+theorem commit_load_error (v : Variant) (s : State) (g mid : Nat) (gen : Int) (parts : List (Nat × Int × Int × Nat))
     (hl : loadGroup v s g = none) :
     (commit v s g mid gen parts).1.offsets = s.offsets ∧ (commit v s g mid gen parts).2 = .goErr := by
   unfold commit; rw [hl]; exact ⟨rfl, rfl⟩
 
 /-- **C13 (heartbeat).** A heartbeat from an unknown member or with a stale generation is answered
 UNKNOWN_MEMBER_ID / ILLEGAL_GENERATION and changes nothing but loading the group. -/
-theorem _root_.KafVerif.C13.heartbeat_fenced (v : Variant) (s s1 : State) (g mid gen : Nat) (ost : Option Group)
+theorem _root_.KafVerif.C13.heartbeat_fenced (v : Variant) (s s1 : State) (g mid : Nat) (gen : Int) (ost : Option Group)
     (hl : loadGroup v s g = some (s1, ost)) (hn : NotCurrent ost mid gen) :
     ∃ code, (code = UNKNOWN_MEMBER_ID ∨ code = ILLEGAL_GENERATION) ∧ heartbeat v s g mid gen = (s1, .code code) := by
   unfold heartbeat
@@ -75,7 +86,7 @@ theorem _root_.KafVerif.C13.heartbeat_fenced (v : Variant) (s s1 : State) (g mid
 
 /-- **C13 (sync).** A sync from an unknown member or with a stale generation is answered
 UNKNOWN_MEMBER_ID / ILLEGAL_GENERATION with an empty assignment and changes nothing but loading the group. -/
-theorem _root_.KafVerif.C13.sync_fenced (v : Variant) (s s1 : State) (g mid gen : Nat) (ost : Option Group)
+theorem _root_.KafVerif.C13.sync_fenced (v : Variant) (s s1 : State) (g mid : Nat) (gen : Int) (ost : Option Group)
     (hl : loadGroup v s g = some (s1, ost)) (hn : NotCurrent ost mid gen) :
     ∃ code, (code = UNKNOWN_MEMBER_ID ∨ code = ILLEGAL_GENERATION) ∧ sync v s g mid gen = (s1, .sync code []) := by
   unfold sync
@@ -84,7 +95,7 @@ theorem _root_.KafVerif.C13.sync_fenced (v : Variant) (s s1 : State) (g mid gen 
   | none => exact ⟨_, Or.inl rfl, rfl⟩
   | some st =>
     simp only
-    by_cases hg : gen ≠ st.gen
+    by_cases hg : gen ≠ (st.gen : Int)
     · simp only [hg, ne_eq, not_false_eq_true, if_true]
       exact ⟨_, Or.inr rfl, rfl⟩
     · rcases hn st rfl with h | h
@@ -93,7 +104,7 @@ theorem _root_.KafVerif.C13.sync_fenced (v : Variant) (s s1 : State) (g mid gen 
       · exact absurd h hg
 
 /-- a fenced request leaves the committed offsets alone (heartbeat and sync never touch them) -/
-theorem heartbeat_sync_offsets (v : Variant) (s : State) (g mid gen : Nat) :
+theorem heartbeat_sync_offsets (v : Variant) (s : State) (g mid : Nat) (gen : Int) :
     (heartbeat v s g mid gen).1.offsets = s.offsets ∧ (sync v s g mid gen).1.offsets = s.offsets :=
   ⟨(heartbeat_frame v s g mid gen).offsets, (sync_frame v s g mid gen).offsets⟩
 
@@ -153,7 +164,7 @@ theorem generation_mono_restored (ops : List Op) (op : Op) (g : Nat) (p : PGroup
 /-- **C13 (the commit is one critical section).** In the fixed code a request issued while an
 OffsetCommit is in flight waits for it: the outcome is the commit followed by the other request,
 never "check, other request, writes". -/
-theorem _root_.KafVerif.C13.race_commit_atomic (s : State) (g mid gen : Nat) (parts : List (Nat × Int × Int × Nat)) (other : Op) :
+theorem _root_.KafVerif.C13.race_commit_atomic (s : State) (g mid : Nat) (gen : Int) (parts : List (Nat × Int × Int × Nat)) (other : Op) :
     raceV fixed s g mid gen parts other =
       ((stepV fixed (commit fixed s g mid gen parts).1 other).1, (commit fixed s g mid gen parts).2,
        (stepV fixed (commit fixed s g mid gen parts).1 other).2, false) := by
